@@ -29,6 +29,7 @@ from geoh5py import TYPE_UID_TO_CLASS, Workspace
 from geoh5py.groups import Group, PropertyGroup
 from geoh5py.objects import ObjectBase
 from geoh5py.shared import Entity
+from geoh5py.shared.concatenation import ConcatenatedObject
 from geoh5py.shared.exceptions import (
     AssociationValidationError,
     AtLeastOneValidationError,
@@ -207,6 +208,12 @@ class AssociationValidator(BaseValidator):
 
         elif isinstance(valid, Entity):
             children = valid.workspace.fetch_children(valid, recursively=True)
+
+        # the data of concatenated objects are filed in the tables of their group
+        # and loaded on demand
+        for child in [valid] + list(children):
+            if isinstance(child, ConcatenatedObject):
+                children = children + child.get_entity(uid)
 
         if uid not in [getattr(child, "uid", None) for child in children]:
             raise AssociationValidationError(name, value, valid)
